@@ -363,7 +363,7 @@ def c06_finalize(report, cfg, only=None, positions=None):
                 it.call_instance(fin, [Ptr(scell, ()), Ptr(ocell, ())])
                 for a in it.asserts:
                     if not any(re.search(rx, a["inst"]) and a["kind"] == k for rx, k, _ in ALLOWED_ASSERTS) \
-                            and not (a["kind"].startswith("overflow") and only_beyond_format_limit(a, ("datalen",))):
+                            and not (a["kind"].startswith("overflow") and only_beyond_format_limit(a, {"datalen": 4})):
                         report.violated("R6.4", ikey + ":" + a["kind"], "%s assertion in %s can fail for some inputs" % (a["kind"], facts.short(a["inst"], 80)))
                         return
                 if it.panics:
@@ -398,8 +398,8 @@ def c06_update(report, cfg):
     name = "Jh256"
     t = "jh_x86_64::%s" % name
     upd = find(f, r"^<jh_x86_64::%s as digest::Update>::update::<&\[u8\]>$" % name)
-    for p in (0, 1, 63):
-        for ln in (0, 1, 63, 64, 65, 130):
+    for p in (0, 1, 17, 63):
+        for ln in (0, 1, 63, 64, 65, 130, 4 * 64 + 50, 8 * 64 + 3):
             ikey = "%s::update pos=%d len=%d@%s" % (name, p, ln, cfg)
             total += 1
 
